@@ -3,6 +3,8 @@ package sym
 import (
 	"fmt"
 	"go/types"
+	"os"
+	"runtime/debug"
 )
 
 // RV is the engine's representation of a reflect.Value.
@@ -10,6 +12,7 @@ type RV struct {
 	T    types.Type
 	V    Value
 	Addr *Value // non-nil when addressable (settable)
+	RO   bool   // obtained through an unexported field
 }
 
 func init() {
@@ -34,13 +37,13 @@ func init() {
 		rv := asRV(a[0])
 		switch t := rv.T.Underlying().(type) {
 		case *types.Pointer:
-			p, _ := rv.V.(*Value)
+			p, _ := rv.cur().(*Value)
 			if p == nil {
 				return RV{}
 			}
 			return RV{T: t.Elem(), V: *p, Addr: p}
 		case *types.Interface:
-			it := rv.V.(Iface)
+			it := rv.cur().(Iface)
 			if it.T == nil {
 				return RV{}
 			}
@@ -87,8 +90,17 @@ func init() {
 		if rv.Addr == nil {
 			m.rtPanic(fr, T.True, "reflect: reflect.Value.Set using unaddressable value")
 		}
+		if rv.RO {
+			m.rtPanic(fr, T.True, "reflect: reflect.Value.Set using value obtained using unexported field")
+		}
 		src := asRV(a[1])
-		*rv.Addr = copyVal(src.cur())
+		v := copyVal(src.cur())
+		if _, dstIface := rv.T.Underlying().(*types.Interface); dstIface {
+			if _, srcIface := src.T.Underlying().(*types.Interface); !srcIface {
+				v = Iface{T: src.T, V: v}
+			}
+		}
+		*rv.Addr = v
 		return nil
 	})
 	reg("(reflect.Value).IsValid", func(m *Machine, fr *frame, a []Value) Value {
@@ -125,6 +137,9 @@ func init() {
 func asRV(v Value) RV {
 	if rv, ok := v.(RV); ok {
 		if rv.T == nil {
+			if os.Getenv("SYMGO_RVDEBUG") != "" {
+				debug.PrintStack()
+			}
 			panic(&goPanic{Val: Iface{T: types.Typ[types.String], V: MkStr("reflect: call on zero Value")}, Msg: "reflect: call on zero Value", RT: true})
 		}
 		return rv
